@@ -52,6 +52,9 @@ PDU* pdu_from_dlt_flag(int flag, const uint8_t* buffer,
 PDU* pdu_from_flag(PDU::PDUType type, const uint8_t* buffer, uint32_t size);
 
 Constants::Ethernet::e pdu_flag_to_ether_type(PDU::PDUType flag);
+// Same as above, but looks into the PDU when its type alone does not determine
+// the ether type (PPPoE discovery vs. session stage)
+Constants::Ethernet::e pdu_to_ether_type(const PDU& pdu);
 PDU::PDUType ether_type_to_pdu_flag(Constants::Ethernet::e flag);
 Constants::IP::e pdu_flag_to_ip_type(PDU::PDUType flag);
 PDU::PDUType ip_type_to_pdu_flag(Constants::IP::e flag);
